@@ -120,6 +120,17 @@ func loadWorld(repo string, specDirs []string) (*World, error) {
 			}
 		}
 	}
+	// anonymous functions
+	var addAnon func(f *ssa.Function)
+	addAnon = func(f *ssa.Function) {
+		for _, a := range f.AnonFuncs {
+			w.funcs[funcKey(a)] = a
+			addAnon(a)
+		}
+	}
+	for _, f := range w.funcs {
+		addAnon(f)
+	}
 	// contract files: stdlib/trusted contracts shipped with the engine, then those in the repo.
 	for _, d := range specDirs {
 		files, _ := filepath.Glob(filepath.Join(d, "*.spec"))
@@ -245,8 +256,11 @@ func structName(t types.Type) string {
 	t = types.Unalias(t)
 	if n, ok := t.(*types.Named); ok {
 		pkg := ""
-		if n.Obj().Pkg() != nil {
-			pkg = n.Obj().Pkg().Name() + "_"
+		if p := n.Obj().Pkg(); p != nil {
+			pkg = p.Name() + "_"
+			if strings.Contains(p.Path(), "/") && !strings.HasPrefix(p.Path(), "github.com/cilium/statedb") && strings.HasPrefix(p.Path(), "internal/") {
+				pkg = identOf(p.Path()) + "_"
+			}
 		}
 		return pkg + n.Obj().Name()
 	}
